@@ -32,9 +32,106 @@ class Toks:
         return self.i >= len(self.t)
 
 
+XFORMS = ("rs+", "rs-", "rs.", "rv", "rv2", "sh0", "rp")
+FLIP = {"+": "-", "-": "+", ".": "."}
+
+
+def warm(loc):
+    """ask a location every argument-less question, so that every lazily built / cached attribute is filled"""
+    for q in (lambda: loc.blocks, lambda: list(loc.scan_blocks()), lambda: loc.is_overlapping, lambda: len(loc),
+              lambda: (loc.start, loc.end, loc.strand, loc.num_blocks, loc.is_contiguous, loc.is_empty),
+              lambda: (str(loc), repr(loc), hash(loc), loc == loc), lambda: loc.parent_to_relative_pos(loc.start),
+              lambda: loc.relative_to_parent_pos(0), lambda: loc.optimize_blocks(), lambda: loc.gap_list(),
+              lambda: loc.extract_sequence()):
+        try:
+            q()
+        except Exception:  # noqa  (a question the operand cannot answer, e.g. no sequence)
+            pass
+
+
+def apply_xform(xf, loc):
+    """identity-like re-constructions; `literal_after_xform` gives the location literal they denote"""
+    if xf.startswith("rs"):
+        return loc.reset_strand(SYM[xf[2]])
+    if xf == "rv":
+        return loc.reverse_strand()
+    if xf == "rv2":
+        return loc.reverse_strand().reverse_strand()
+    if xf == "sh0":
+        return loc.shift_position(0)
+    if xf == "rp":
+        return loc.reset_parent(loc.parent)
+    raise KeyError(xf)
+
+
+def strand_after_xform(xf, st):
+    if xf.startswith("rs"):
+        return xf[2]
+    if xf == "rv":
+        return FLIP[st]
+    return st
+
+
+def strip_history(tokens):
+    """`H <xform> <location literal>` -> the literal of the location the history denotes (strand token adjusted);
+    used for the lines sent to the Lean drivers (model and specification are history-free)"""
+    out, i = [], 0
+    pending = []          # xforms waiting for the strand token of the next literal
+    while i < len(tokens):
+        t = tokens[i]
+        if t == "H":
+            pending.append(tokens[i + 1])
+            i += 2
+            continue
+        if pending and t in ("S", "C"):
+            st = tokens[i + 1]
+            for xf in reversed(pending):
+                st = strand_after_xform(xf, st)
+            out += [t, st]
+            pending = []
+            i += 2
+            continue
+        if pending and t == "E":
+            pending = []
+        out.append(t)
+        i += 1
+    return out
+
+
+def hist_twin(line, rng, lit_starts):
+    """wrap the location literals starting at the token indices `lit_starts` (kind token S/C) into a call history that
+    denotes the same location; returns None when there is nothing to wrap"""
+    t = line.split()
+    ins = []
+    for i in lit_starts:
+        if i >= len(t) or t[i] not in ("S", "C") or rng.random() < 0.3:
+            continue
+        st = t[i + 1]
+        xf = rng.choice(["rs" + st, "rs" + st, "rv", "rv2", "sh0", "rp"])
+        if xf.startswith("rs"):
+            inner = rng.choice([x for x in "+-." if x != st] + [st])
+        elif xf == "rv":
+            inner = FLIP[st]
+        else:
+            inner = st
+        ins.append((i, xf, inner))
+    if not ins:
+        return None
+    for i, xf, inner in sorted(ins, reverse=True):
+        t[i + 1] = inner
+        t[i:i] = ["H", xf]
+    return " ".join(t)
+
+
 def parse_loc(tk, parent=None):
     """Build the real object (constructor errors propagate)."""
     kind = tk.next()
+    if kind == "H":
+        # call history: the inner location is built, asked every question (caches warm), then transformed
+        xf = tk.next()
+        inner = parse_loc(tk, parent)
+        warm(inner)
+        return apply_xform(xf, inner)
     if kind == "E":
         return EmptyLocation()
     st = tk.strand()
